@@ -105,7 +105,11 @@ class UVLWriter(ModelToText):
         if isinstance(value, bool):
             return str(value).lower()
         if isinstance(value, list):
-            return f'[{", ".join(cls.serialize_value(item) for item in value)}]'
+            items = ", ".join(cls.serialize_value(item) for item in value)
+            if len(value) == 1 and isinstance(value[0], int) and not isinstance(value[0], bool):
+                # '[3]' is the token of a cardinality: a list holding one integer needs the blank
+                return f'[{items} ]'
+            return f'[{items}]'
         if isinstance(value, dict):
             items = [safename(str(key)) if item is None
                      else f"{safename(str(key))} {cls.serialize_value(item)}"
